@@ -215,13 +215,7 @@ def _td7_names(td7):
             ev("bk_target_range", after=state_of(self))
             return out
 
-    RecValueClippingState.__name__ = RealVCS.__name__
-    try:
-        import dataclasses
-
-        RecValueClippingState = dataclasses.dataclass(RecValueClippingState)
-    except Exception:
-        pass
+    RecValueClippingState.__name__ = RealVCS.__name__  # a plain subclass: fields, __init__ and __dict__ layout are the dataclass's own
 
     def _train_step(*a, **k):
         # positional layout of td7._train_step: ..., value_clipping_state(9), replay_buffer(10), epoch(11), ..., target_delay(17)
